@@ -67,7 +67,7 @@ func asReader(rd *simio.Reader) io.Reader {
 }
 
 var c18Entries = []string{"version.Parse", "version.UnmarshalText", "dependency.Parse", "dependency.ParseArch", "dependency.ParseArchitectures",
-	"ParagraphReader.All", "Unmarshal:DSC", "Unmarshal:Changes", "Unmarshal:SourceParagraph", "Unmarshal:BinaryParagraph", "Unmarshal:[]BinaryIndex", "Unmarshal:[]SourceIndex",
+	"ParagraphReader.All", "ParagraphReader.Next", "Unmarshal:DSC", "Unmarshal:Changes", "Unmarshal:SourceParagraph", "Unmarshal:BinaryParagraph", "Unmarshal:[]BinaryIndex", "Unmarshal:[]SourceIndex",
 	"ParseDsc", "ParseChanges", "ParseControl", "ParseBinaryIndex", "ParseSourceIndex", "changelog.Parse"}
 
 func isStream(entry string) bool {
@@ -147,6 +147,35 @@ func c18Invoke(entry string, input []byte, rd io.Reader) (res c18Result) {
 			break
 		}
 		val, err = pr.All()
+	case "ParagraphReader.Next":
+		// the iterator itself, called the way All calls it, looking at BOTH results of every call
+		pr, e := control.NewParagraphReader(rd, nil)
+		if e != nil {
+			err = e
+			break
+		}
+		var ps []control.Paragraph
+		for i := 0; i < 100000; i++ {
+			p, e := pr.Next()
+			if e != nil {
+				if e != io.EOF {
+					err = e
+				}
+				if p != nil && e != io.EOF {
+					res.Both = fmt.Sprintf("non-nil *Paragraph (fields %v) from Next", p.Order)
+				}
+				break
+			}
+			if p == nil {
+				err = fmt.Errorf("Next returned (nil, nil)")
+				break
+			}
+			ps = append(ps, *p)
+		}
+		val, checkBoth = ps, false
+		if err != nil {
+			val = nil
+		}
 	case "Unmarshal:DSC":
 		var x control.DSC
 		err = control.Unmarshal(&x, rd)
@@ -192,8 +221,22 @@ func c18Invoke(entry string, input []byte, rd io.Reader) (res c18Result) {
 		if checkBoth {
 			res.Both = usable(val)
 		}
+	} else if entry != "ParagraphReader.Next" {
+		res.Both = ""
 	}
 	return
+}
+
+// c18InvokeSafe is c18Invoke for the real-execution part: a panic becomes an
+// outcome like any other (the same in parallel and alone - panics are judged
+// by the simulation, where a task's panic is trapped and reported).
+func c18InvokeSafe(entry string, input []byte, rd io.Reader) (res c18Result) {
+	defer func() {
+		if p := recover(); p != nil {
+			res = c18Result{Err: fmt.Sprintf("PANIC: %v", p)}
+		}
+	}()
+	return c18Invoke(entry, input, rd)
 }
 
 // plain chunking reader for the race part (no simulator involved)
@@ -253,7 +296,7 @@ func c18Seed(t *rt.Tape, r *rt.Run, entry string) []byte {
 		return []byte(genBinIndex(t, "c18.pkgs", 0).render() + "\n" + genBinIndex(t, "c18.pkgs", 1).render())
 	case strings.Contains(entry, "SourceIndex"):
 		return []byte(genSrcIndex(t, "c18.srcs", 0).render())
-	case strings.Contains(entry, "Paragraph") && entry != "ParagraphReader.All", entry == "ParseControl":
+	case strings.Contains(entry, "Paragraph") && !strings.HasPrefix(entry, "ParagraphReader."), entry == "ParseControl":
 		return []byte(genControlFile(t, "c18.ctl").render())
 	}
 	_, doc, _ := genDoc(t, docGenOpts{MinParas: 0, MaxParas: 3, MaxFields: 4, Comments: true, AllowCRLF: true}, r)
@@ -610,14 +653,14 @@ func raceMain(fs *flag.FlagSet, args []string) {
 				defer wg.Done()
 				<-start
 				for rep := 0; rep < 3; rep++ {
-					got[i] = c18Invoke(c.Entry, c.Input, mk(c))
+					got[i] = c18InvokeSafe(c.Entry, c.Input, mk(c))
 				}
 			}(i, c)
 		}
 		close(start)
 		wg.Wait()
 		for i, c := range cs {
-			ref[i] = c18Invoke(c.Entry, c.Input, mk(c))
+			ref[i] = c18InvokeSafe(c.Entry, c.Input, mk(c))
 		}
 		for i := range cs {
 			calls++
